@@ -586,7 +586,7 @@ class GoExec:
         raise Unsupported('equality of %r and %r' % (a, b))
 
     def refof(self, v):
-        if isinstance(v, (IfaceV, PtrV)):
+        if isinstance(v, (IfaceV, PtrV)) or type(v).__name__ == 'RecV':
             return v.ref
         if isinstance(v, FuncV):
             return v.ref if v.ref is not None else z3.IntVal(-1)
